@@ -109,6 +109,17 @@ pub fn check(c: &Case) -> CheckResult {
         }
     }
     o.class_if(nonmono, "non-monotonic-quad");
+    let mut level = false;
+    for sp in &subs {
+        for e in &sp.elems {
+            match e {
+                Elem::Quad(a, b, cc) => level |= b.1 == a.1 || b.1 == cc.1,
+                Elem::Cubic(a, b, cc, d) => level |= b.1 == a.1 || cc.1 == d.1,
+                _ => {}
+            }
+        }
+    }
+    o.class_if(level, "control-point-level-with-endpoint");
     o.class_if(subs.iter().any(|s| s.elems.iter().any(|e| e.start().1 < 0.0 && e.is_curve())), "curve-starts-above-row0");
     Ok(o)
 }
@@ -155,6 +166,41 @@ pub fn path_strategy(ext: f32) -> BoxedStrategy<PathSpec> {
             for s in segs {
                 ops.extend(s);
             }
+            // exact coincidences that random floats never produce: a control point level with the curve's
+            // start or end (horizontal end tangent: the monotonicity test's `ab == 0` branch), or with the same x
+            let mut prev: Option<(f32, f32)> = None;
+            for (k, op) in ops.iter_mut().enumerate() {
+                let sel = k % 5;
+                match op {
+                    POp::Q(cx, cy, x, y) => {
+                        if let Some(p) = prev {
+                            match sel {
+                                0 => *cy = p.1,
+                                1 => *cy = *y,
+                                2 => *cx = p.0,
+                                _ => {}
+                            }
+                        }
+                        prev = Some((*x, *y));
+                    }
+                    POp::C(ax, ay, bx, by, x, y) => {
+                        if let Some(p) = prev {
+                            match sel {
+                                0 => *ay = p.1,
+                                1 => *by = *y,
+                                2 => {
+                                    *ax = p.0;
+                                    *bx = *x;
+                                }
+                                _ => {}
+                            }
+                        }
+                        prev = Some((*x, *y));
+                    }
+                    POp::M(x, y) | POp::L(x, y) => prev = Some((*x, *y)),
+                    POp::Z => {}
+                }
+            }
             if close {
                 ops.push(POp::Z);
             }
@@ -191,7 +237,7 @@ pub fn property(_ctx: &Ctx) -> Property {
         rule: "cases: paths of 2-8 ops mixing move/line/quad/cubic/arc/close in any order (curve first, directly after close, cusps, coincident control points, control points up to +-1500 units), both winding rules, identity / translation / rotation x scale / non-uniform scale / shear / mirror transforms (device geometry within +-4000 px), used as fill path or as clip path, white on transparent, 12..32 px surfaces. Oracle: f64 path walker with the statement's cursor rules, curves evaluated densely (<=0.08 px steps), winding number and distance to the outline per pixel centre; a pixel whose centre is more than 1 px + half a pixel diagonal from the outline must be exactly 0xffffffff when inside by the rule and exactly 0 when outside. Non-trivial: path with >=1 curve and >=1 judged-inside and >=1 judged-outside pixel; distinct by hash of the case.",
         assumptions: vec!["pixels within 1.71 px of the outline are not judged (counted as undecided)", "arcs are judged as the quads PathBuilder::arc emitted (C20 owns arc-vs-circle)"],
         parts: vec![part("fill", 80_000, 1_500_000, strategy, check)],
-        min_class_fraction: vec![("fill", "has-curve", 0.8), ("fill", "as-clip-path", 0.15), ("fill", "draw-after-close", 0.05), ("fill", "non-monotonic-quad", 0.15), ("fill", "far-control-point", 0.05), ("fill", "curve-starts-above-row0", 0.1)],
+        min_class_fraction: vec![("fill", "has-curve", 0.8), ("fill", "as-clip-path", 0.15), ("fill", "draw-after-close", 0.05), ("fill", "non-monotonic-quad", 0.15), ("fill", "far-control-point", 0.05), ("fill", "curve-starts-above-row0", 0.1), ("fill", "control-point-level-with-endpoint", 0.1)],
         panic_is_violation: false,
     }
 }
